@@ -314,6 +314,7 @@ func TestLedgerConservation(t *testing.T) {
 						}
 					}
 				}
+				blockgen.ExtraTargets = contracts
 				n := rapid.IntRange(1, 8).Draw(t, "nTx")
 				for i := 0; i < n; i++ {
 					src := rapid.IntRange(0, 3).Draw(t, "src")
